@@ -2,10 +2,11 @@ import DuneVerif.Proofs.C09LU
 /-!
 # C09 — the configuration `DUNE_FMatrix_WITH_CHECKING` (round 3)
 
-`solveC` / `invertC` (Model/C09LU.lean) put the singularity test of the checked configuration in front of the closed forms.
-The SIMD call throws exactly if the scalar call throws for some lane (the test reduces the lane mask with `anyTrue`), and
-otherwise every lane of the result is the scalar result — for every lawful SIMD type, every arithmetic, every threshold
-predicate, every `n`.
+`solveC` / `invertC` (Model/C09LU.lean) put the singularity test of the checked configuration in front of the closed forms;
+which reduction and comparison the test uses is read off densematrix.hh by the translator (`Gen.chkSolve`, `Gen.chkInvert`).
+As long as every test reduces its lane mask with `anyTrue` (`Gen`'s current content, checked by `decide`), the SIMD call throws
+exactly if the scalar call throws for some lane, and otherwise every lane of the result is the scalar result — for every
+lawful SIMD type, every arithmetic, every threshold predicate, every `n`.
 -/
 namespace DV.C09
 open Gen
@@ -13,50 +14,78 @@ open Gen
 section Checked
 variable {V : Type → Type} {L : Nat} (X : SimdLike V L) (hX : X.Lawful) {K : Type} (R : Arith K) {n : Nat}
 
-include hX in
-/-- the reduced test is true exactly if the scalar test is true for some lane -/
-theorem singularChecked_iff (chk : Option (K → Bool)) (d : V K) :
-    singularChecked X chk d = true ↔ ∃ l, singularChecked (V := fun α => α) Xs chk (X.lane l d) = true := by
-  cases chk with
-  | none => simp [singularChecked]
-  | some below =>
-    simp only [singularChecked, hX.anyTrue_iff, hX.lane_map]
-    constructor
-    · rintro ⟨l, hl⟩
-      exact ⟨l, by simpa [SimdLike.scalar, scalarReduce] using hl⟩
-    · rintro ⟨l, hl⟩
-      exact ⟨l, by simpa [SimdLike.scalar, scalarReduce] using hl⟩
+/-- every test of the table reduces with `anyTrue` -/
+def AllAny (tests : List (Nat × RedKind × CmpOpName)) : Prop := ∀ e ∈ tests, e.2.1 = RedKind.anyTrue
+instance (tests : List (Nat × RedKind × CmpOpName)) : Decidable (AllAny tests) := by unfold AllAny; infer_instance
+
+theorem lookup_anyTrue {tests : List (Nat × RedKind × CmpOpName)} (h : AllAny tests) {m : Nat} {k : RedKind} {c : CmpOpName}
+    (hl : tests.lookup m = some (k, c)) : k = .anyTrue := by
+  induction tests with
+  | nil => simp at hl
+  | cons e es ih =>
+    obtain ⟨m', k', c'⟩ := e
+    simp only [List.lookup_cons] at hl
+    by_cases hm : m = m'
+    · subst hm
+      simp at hl
+      have := h (m, k', c') (by simp)
+      simp at this
+      rw [← hl.1]; exact this
+    · have hne : (m == m') = false := by simp [hm]
+      rw [hne] at hl
+      exact ih (fun e he => h e (by simp [he])) hl
 
 include hX in
-theorem solveC_lanewise_some (chk : Option (K → Bool)) (piv : Bool) (A : Mat (V K) n) (b x : Vector (V K) n)
-    (h : solveC X R chk piv A b = some x) (l : Fin L) :
+/-- the reduced test is true exactly if the scalar test is true for some lane -/
+theorem singularChecked_iff (tests : List (Nat × RedKind × CmpOpName)) (h : AllAny tests)
+    (chk : Option (CmpOpName → K → Bool)) (m : Nat) (d : V K) :
+    singularChecked X tests chk m d = true ↔ ∃ l, singularChecked (V := fun α => α) Xs tests chk m (X.lane l d) = true := by
+  unfold singularChecked
+  cases chk with
+  | none => simp
+  | some below =>
+    cases hl : tests.lookup m with
+    | none => simp
+    | some kc =>
+      obtain ⟨k, c⟩ := kc
+      have hk := lookup_anyTrue h hl
+      subst hk
+      simp only [reduceMask, hX.anyTrue_iff, hX.lane_map]
+      constructor
+      · rintro ⟨l, hl⟩
+        exact ⟨l, by simpa [SimdLike.scalar, scalarReduce] using hl⟩
+      · rintro ⟨l, hl⟩
+        exact ⟨l, by simpa [SimdLike.scalar, scalarReduce] using hl⟩
+
+include hX in
+theorem solveC_lanewise_some (hs : AllAny chkSolve) (chk : Option (CmpOpName → K → Bool)) (piv : Bool) (A : Mat (V K) n)
+    (b x : Vector (V K) n) (h : solveC X R chk piv A b = some x) (l : Fin L) :
     solveC (V := fun α => α) Xs R chk piv (laneMat X l A) (laneVec X l b) = some (laneVec X l x) := by
   unfold solveC at h ⊢
-  by_cases hc : 1 ≤ n ∧ n ≤ 3 ∧ singularChecked X chk (determinant X R piv A) = true
+  by_cases hc : singularChecked X chkSolve chk n (determinant X R piv A) = true
   · simp [hc] at h
   · rw [if_neg hc] at h
-    have hs : ¬ (1 ≤ n ∧ n ≤ 3 ∧
-        singularChecked (V := fun α => α) Xs chk (determinant (V := fun α => α) Xs R piv (laneMat X l A)) = true) := by
-      rintro ⟨h1, h3, ht⟩
+    have hsc : ¬ (singularChecked (V := fun α => α) Xs chkSolve chk n
+        (determinant (V := fun α => α) Xs R piv (laneMat X l A)) = true) := by
+      intro ht
       apply hc
-      refine ⟨h1, h3, (singularChecked_iff X hX chk _).2 ⟨l, ?_⟩⟩
+      refine (singularChecked_iff X hX chkSolve hs chk n _).2 ⟨l, ?_⟩
       rw [determinant_lanewise X hX R piv A l]
       exact ht
-    rw [if_neg hs]
+    rw [if_neg hsc]
     exact solve_lanewise_some X hX R piv A b x h l
 
 include hX in
-theorem solveC_lanewise_none (chk : Option (K → Bool)) (piv : Bool) (A : Mat (V K) n) (b : Vector (V K) n)
-    (h : solveC X R chk piv A b = none) :
+theorem solveC_lanewise_none (hs : AllAny chkSolve) (chk : Option (CmpOpName → K → Bool)) (piv : Bool) (A : Mat (V K) n)
+    (b : Vector (V K) n) (h : solveC X R chk piv A b = none) :
     ∃ l, solveC (V := fun α => α) Xs R chk piv (laneMat X l A) (laneVec X l b) = none := by
   unfold solveC at h
-  by_cases hc : 1 ≤ n ∧ n ≤ 3 ∧ singularChecked X chk (determinant X R piv A) = true
-  · obtain ⟨h1, h3, ht⟩ := hc
-    obtain ⟨l, hl⟩ := (singularChecked_iff X hX chk _).1 ht
+  by_cases hc : singularChecked X chkSolve chk n (determinant X R piv A) = true
+  · obtain ⟨l, hl⟩ := (singularChecked_iff X hX chkSolve hs chk n _).1 hc
     refine ⟨l, ?_⟩
     rw [determinant_lanewise X hX R piv A l] at hl
     unfold solveC
-    rw [if_pos ⟨h1, h3, hl⟩]
+    rw [if_pos hl]
   · rw [if_neg hc] at h
     obtain ⟨l, hl⟩ := solve_lanewise_none X hX R piv A b h
     refine ⟨l, ?_⟩
@@ -66,35 +95,34 @@ theorem solveC_lanewise_none (chk : Option (K → Bool)) (piv : Bool) (A : Mat (
     · exact hl
 
 include hX in
-theorem invertC_lanewise_some (chk : Option (K → Bool)) (piv : Bool) (A B : Mat (V K) n)
+theorem invertC_lanewise_some (hs : AllAny chkInvert) (chk : Option (CmpOpName → K → Bool)) (piv : Bool) (A B : Mat (V K) n)
     (h : invertC X R chk piv A = some B) (l : Fin L) :
     invertC (V := fun α => α) Xs R chk piv (laneMat X l A) = some (laneMat X l B) := by
   unfold invertC at h ⊢
-  by_cases hc : 1 ≤ n ∧ n ≤ 2 ∧ singularChecked X chk (determinant X R piv A) = true
+  by_cases hc : singularChecked X chkInvert chk n (determinant X R piv A) = true
   · simp [hc] at h
   · rw [if_neg hc] at h
-    have hs : ¬ (1 ≤ n ∧ n ≤ 2 ∧
-        singularChecked (V := fun α => α) Xs chk (determinant (V := fun α => α) Xs R piv (laneMat X l A)) = true) := by
-      rintro ⟨h1, h3, ht⟩
+    have hsc : ¬ (singularChecked (V := fun α => α) Xs chkInvert chk n
+        (determinant (V := fun α => α) Xs R piv (laneMat X l A)) = true) := by
+      intro ht
       apply hc
-      refine ⟨h1, h3, (singularChecked_iff X hX chk _).2 ⟨l, ?_⟩⟩
+      refine (singularChecked_iff X hX chkInvert hs chk n _).2 ⟨l, ?_⟩
       rw [determinant_lanewise X hX R piv A l]
       exact ht
-    rw [if_neg hs]
+    rw [if_neg hsc]
     exact invert_lanewise_some X hX R piv A B h l
 
 include hX in
-theorem invertC_lanewise_none (chk : Option (K → Bool)) (piv : Bool) (A : Mat (V K) n)
+theorem invertC_lanewise_none (hs : AllAny chkInvert) (chk : Option (CmpOpName → K → Bool)) (piv : Bool) (A : Mat (V K) n)
     (h : invertC X R chk piv A = none) :
     ∃ l, invertC (V := fun α => α) Xs R chk piv (laneMat X l A) = none := by
   unfold invertC at h
-  by_cases hc : 1 ≤ n ∧ n ≤ 2 ∧ singularChecked X chk (determinant X R piv A) = true
-  · obtain ⟨h1, h3, ht⟩ := hc
-    obtain ⟨l, hl⟩ := (singularChecked_iff X hX chk _).1 ht
+  by_cases hc : singularChecked X chkInvert chk n (determinant X R piv A) = true
+  · obtain ⟨l, hl⟩ := (singularChecked_iff X hX chkInvert hs chk n _).1 hc
     refine ⟨l, ?_⟩
     rw [determinant_lanewise X hX R piv A l] at hl
     unfold invertC
-    rw [if_pos ⟨h1, h3, hl⟩]
+    rw [if_pos hl]
   · rw [if_neg hc] at h
     obtain ⟨l, hl⟩ := invert_lanewise_none X hX R piv A h
     refine ⟨l, ?_⟩
